@@ -459,7 +459,7 @@ class Unit:
 
     # ---- take_fn ----------------------------------------------------------------
     def take_fn(self, sf, path, contract="", ret="r", pre_body="", loops=None, loop_attrs=None, hints=(),
-                e9=(), ghost=None, ghost_calls=(), external_body=False, keep_attrs=(), make_pub=True,
+                e9=(), ghost=None, ghost_calls=(), loop_ends=None, external_body=False, keep_attrs=(), make_pub=True,
                 rename=None, drop_body=False, e10=True, extra_attrs="", under_contract=True, sig_edits=(),
                 lift_closures=(), loop_iter_names=None):
         """Extract one function verbatim and splice contract text into it.
@@ -547,6 +547,11 @@ class Unit:
                         raise Undecided("%s: loop ordinal %d not found" % (path, k))
                     ls = it["loops"][k]["span"][0]
                     edits.append((ls, ls, at + " ", "contract", "E7"))
+                for k, txt in (loop_ends or {}).items():
+                    if k >= len(it["loops"]):
+                        raise Undecided("%s: loop ordinal %d not found" % (path, k))
+                    le = it["loops"][k]["body"][1] - 1
+                    edits.append((le, le, "\n" + txt.rstrip() + "\n", "contract", "E7"))
                 for k, nm in (loop_iter_names or {}).items():
                     # E7: Verus' ghost name for the iterator of a `for` loop: `for x in NAME: expr`
                     if k >= len(it["loops"]) or it["loops"][k]["kind"] != "for":
